@@ -126,7 +126,7 @@ class TraceContainer:
         If more than one scope trace is loaded, scopes are prepended by the tid of their trace.
         '''
         if len(self.traces) > 1:
-            scopes = [(trace.id + trace.SCOPE_SEPERATOR + scope) for trace in self.traces.values() for scope in trace.scopes]
+            scopes = [(trace.tid + trace.SCOPE_SEPERATOR + scope) for trace in self.traces.values() for scope in trace.scopes]
         else:
             scopes = [scope for trace in self.traces.values() for scope in trace.scopes]
 
@@ -143,7 +143,7 @@ class TraceContainer:
             if len(self.traces) == 1:
                 tmp = list(map(lambda s: f'{s}', trace.rawsignals))
             else:
-                tmp = list(map(lambda s, t=trace: f'{t}{Trace.SCOPE_SEPERATOR}{s}', trace.rawsignals))
+                tmp = list(map(lambda s, t=trace: f'{t.tid}{Trace.SCOPE_SEPERATOR}{s}', trace.rawsignals))
             signals = signals + tmp
         return signals
 
